@@ -83,7 +83,7 @@ MANIFEST = dict(
          "an exact-path result. C19_text_key_fixed (witness of the former finding C19-c), C19_scalar_in_list_cex, "
          "C19_scalar_in_list_root_cex (a scalar in a list under a wildcard/name raises IndexError: outside the quantifier). "
          "NOT proved, checked on the implementation only: completeness of the descendant wildcard with a longer tail "
-         "('//*/name/sub': evaluator descendant against a DFS oracle + streams; soundness of every result is C19_keys_spell), "
+         "(stated as C19_descendant_tail_stmt; '//*/name/sub': evaluator descendant against a DFS oracle + streams; soundness of every result is C19_keys_spell), "
          "object identity (`is`), and that the real code does not write "
          "into the tree (the model is a pure function that does not thread the tree). The model is compared with the real "
          "findall/_findall/findfirst on results in order, exception class and the contents of _findall.__defaults__ after "
